@@ -105,7 +105,7 @@ def band_reps(A, form, debug):
 def ilog_value_reps(A, form):
     from analysis.facts import DIGIT
     db = {"u8": 8, "u16": 16, "u32": 32, "u64": 64}[DIGIT[A]]
-    bases = [("hd", lambda W: 1 << (db // 2)), ("hd1", lambda W: (1 << (db // 2)) + 1), ("q", lambda W: 1 << max(2, W.bits(A) // 4)),
+    bases = [("two", lambda W: 2), ("hd", lambda W: 1 << (db // 2)), ("hd1", lambda W: (1 << (db // 2)) + 1), ("q", lambda W: 1 << max(2, W.bits(A) // 4)),
              ("dm1", lambda W: (1 << db) - 1 if W.bits(A) > db else 3), ("three", lambda W: 3), ("ten", lambda W: 10)]
     selfs = [("MAX", lambda W, b: arith.rng(W, A)[1]), ("cube", lambda W, b: min(b ** 3, arith.rng(W, A)[1])), ("sq", lambda W, b: min(b * b, arith.rng(W, A)[1])),
              ("sqm1", lambda W, b: min(b * b - 1, arith.rng(W, A)[1])), ("eq", lambda W, b: min(b, arith.rng(W, A)[1])), ("lt", lambda W, b: b - 1)]
